@@ -674,6 +674,14 @@ impl<A: ArenaAllocator> Drop for Arena<A> {
             let value = x.payload_ptr();
             x.0.drop_in_place(value);
         });
+        #[cfg(starlark_verif)]
+        unsafe {
+            for bump in [&self.drop, &self.non_drop] {
+                for chunk in bump.iter_allocated_chunks_rev() {
+                    crate::verif::poison_bytes(chunk.as_ptr() as *mut u8, chunk.len());
+                }
+            }
+        }
     }
 }
 
